@@ -164,6 +164,8 @@ def install(ex):
         it = args[0]
         if isinstance(it, IterV):
             return IterV(it.ref, list(reversed(it.order)))
+        if isinstance(it, DrainV):
+            return DrainV(list(reversed(it.items)))
         return NotImplemented
 
     def m_into_iter(ex_, st, cname, args, dest_ty, fn):
@@ -205,6 +207,9 @@ def install(ex):
         root, path, v = vec_at(st, args[0])
         rng = args[1]
         n = len(v.items)
+        if "RangeFull" in cname:
+            ex_.set_at(st, root, path, VecV([]))
+            return DrainV(v.items)
         if not isinstance(rng, Agg):
             raise Unsupported("drain range %r" % (rng,))
         if "RangeFrom" in cname:
